@@ -11,7 +11,7 @@ PROP = dict(
         legs=[dict(name="c13_queue", src=["c13_queue.c"], libs=["mptcore"], batch=512, memcheck=3000,
                    floors={"mpt_qpop": 500, "mpt_queue_crop": 500, "state:wrapped": 2000,
                            "monitor:readbacks": 20000, "history:reached-wrapped": 1000}),
-              dict(name="c13_cxx", src=["c13_cxx.cpp"], libs=["mpt++", "mptio", "mptplot", "mptcore"], batch=512,
+              dict(name="c13_cxx", memcheck=500, src=["c13_cxx.cpp"], libs=["mpt++", "mptio", "mptplot", "mptcore"], batch=512,
                    floors={"io::queue::pop": 1000, "io::queue::write": 1000, "history:reached-wrapped": 200,
                            "pipe::pop": 1000})],
         rule=("case = (a) one (capacity, offset, fill, operation) tuple run with every argument value, "
